@@ -160,6 +160,8 @@ class Attempt:
                 pass
             elif fld == "hj":
                 self.hj = True
+            elif fld == "fl":
+                pass  # Flush attempt: the buffering writer offers no Flusher, nothing may reach the client early
             elif p[0] == "r":
                 self.read = None if p[1] == "all" else int(p[1])
             elif p[0] in ("hs", "ha", "hd"):
@@ -309,6 +311,9 @@ def monitor_c06(ops, outs):
             bad.append("malformed: no well-formed result for %r: %r" % (" ".join(ops[0].split()[:3]), o[:80]))
             continue
         body = req.body()
+        if not eff_over_request(cfg, req) and out.inv == 0:
+            bad.append("unserved: a %d-byte body within the maximum (%s) never reached the handler (status %s)" % (req.len, cfg.maxreq, out.status))
+            return bad
         for i, v in enumerate(out.views):
             k = i + 1
             a = req.att(k)
@@ -495,15 +500,17 @@ def gen_attempt(rng, c, reqlen, focus, will_retry_bias):
             l = _pick_size(rng, marks, 700)
         tot += l
         f.append("w:%d.%d" % (l, rng.randint(0, 99999)))
+    if rng.random() < 0.05:
+        f.append("fl")
     if rng.random() < 0.04:
         f.append("hj")
     return ",".join(f)
 
 
 def gen_scenarios(rng, tier, focus):
-    n_scen = {"quick": 260, "thorough": 2200, "search": 300}.get(tier, 260)
-    big_left = {"quick": 6, "thorough": 40, "search": 4}.get(tier, 6)
-    huge_left = 10 if tier == "thorough" else 0
+    n_scen = {"quick": 2500, "thorough": 20000, "search": 400}.get(tier, 2500)
+    big_left = {"quick": 30, "thorough": 200, "search": 6}.get(tier, 30)
+    huge_left = 24 if tier == "thorough" else 0
     for _ in range(n_scen):
         cfg, c, valid = gen_cfg(rng, focus, tier)
         lines = [cfg]
